@@ -294,7 +294,15 @@ func (s *Scanner) mergeDescs(old, new descs) descs {
 			a++
 			continue
 		}
-		if od.LastSeenSize <= nd.LastSeenSize && od.getOffset() <= nd.LastSeenSize {
+		off := od.getOffset()
+		if off > nd.LastSeenSize {
+			// the size was read (scanPaths) before the offset: the file may have grown, and the new
+			// bytes may have been shipped, in between. Look at the size again, after the offset.
+			if fi, err := os.Stat(nd.File); err == nil && utils.GetFileId(nd.File, fi) == id {
+				nd.LastSeenSize = fi.Size()
+			}
+		}
+		if od.LastSeenSize <= nd.LastSeenSize && off <= nd.LastSeenSize {
 			od.setLastSeenSize(nd.getLastSeenSize())
 			res[id] = od
 			continue
